@@ -1,7 +1,7 @@
 """C08 — converting a type's JSON Schema (schemars) to OpenAPI (openapiv3) preserves its meaning."""
 import re
 
-from .lib import PLUMBING, lit_str, operand_local, root_fn
+from .lib import PLUMBING, operand_local, root_fn
 from .lib_c08 import ChainOps, Flow, Origins, controllers, field_writes, gen_role
 
 LEVEL = "other"
@@ -10,7 +10,8 @@ TECHNIQUE = ("static analysis: field-sensitive interprocedural source->sink mapp
 LEVEL_TEXT = ("Decides, for every write of a field of an openapiv3 schema type in the call-graph closure of schema_util::j2oas_schema, exactly which fields of the compiled "
               "schemars::schema::{SchemaObject, Metadata, SubschemaValidation, NumberValidation, StringValidation, ArrayValidation, ObjectValidation} it is computed from "
               "(data flow; for constant-valued flags the controlling predicates), and that this mapping equals the reviewed table: no enumerated keyword or annotation is dropped, "
-              "swapped or fed from a different keyword; every field of those source structs is mapped, selects the output kind, or is on the documented "
+              "swapped or fed from a different keyword, and (R1b) that the value travels only through value-preserving operations — no filter, comparison, arithmetic, clamp or substituted "
+              "constant, helpers and closures included; every field of those source structs is mapped, selects the output kind, or is on the documented "
               "not-representable-in-OpenAPI-3.0 list (a field added by a schemars upgrade is reported); every nested schema position recurses through the converter; "
               "every built piece reaches the returned schema; openapiv3::Schema values are built only by the converter (plus the explicit free-form `Any`) and every schema "
               "placed in the document comes from it; JSON type -> OpenAPI type and the nine format names map by identity. "
